@@ -239,11 +239,52 @@ def loops_of(prog, b):
             if not src:
                 shape = None
                 detail = f"iterator of unknown finiteness: {tstr(it)}"
+            elif "of integers" in src:
+                # an integer range is finite, but if its bounds come from a caller-supplied scalar the number of iterations is
+                # that scalar (up to 2^64): the loop must leave early on a comparison of the loop variable with a size that is
+                # NOT caller-supplied (a field / a container length), or the bound must be clamped to such a size
+                bounds = _range_bounds(it)
+                from_param = any(s2[0] == 'param' and b.local_ty(s2[1]).k == 'prim' for x in bounds for s2 in subterms(deep_strip(x)))
+                if from_param:
+                    var = ('ok', deep_strip(b.call_term(c.t, c.pos, 0)))
+                    exits = []
+                    for f in b.body_facts():
+                        if f["u"] in blocks and f["v"] not in blocks and f["rel"][0] == 'cmp':
+                            r = f["rel"]
+                            sides = [deep_strip(r[2]), deep_strip(r[3])]
+                            if any(s == deep_strip(var) or (s[0] == 'ok' and s == deep_strip(var)) for s in sides):
+                                other = [s for s in sides if s != deep_strip(var)]
+                                if other and not any(s2[0] == 'param' and b.local_ty(s2[1]).k == 'prim' for s2 in subterms(other[0])):
+                                    exits.append(tstr(other[0]))
+                    clamped = any(is_call(deep_strip(x), "cmp::min") for x in bounds)
+                    if exits or clamped:
+                        detail += f"; bounds are caller-supplied but the loop leaves when the variable reaches `{exits[0] if exits else 'the clamped end'}`"
+                    else:
+                        shape = "param_bounded_range"
+                        detail = ("integer range whose bounds derive from a caller-supplied scalar and no early exit against a container size: the iteration "
+                                  "count is the caller's value (up to 2^64 no-op iterations = effectively no termination)")
         out.append((h, blocks, shape, detail, calls))
     return out
 
 
 FINITE_ITER = re.compile(r"(slice::iter(_mut)?|slice::windows|Iterator::take|Iterator::enumerate|Iterator::map|Iterator::zip|RangeInclusive::new|IntoIterator::into_iter|Vec::iter|Vec::drain|Iterator::rev)$")
+
+
+def _range_bounds(t):
+    """the bound terms of the integer range an iterator is built from"""
+    t = deep_strip(t)
+    while t[0] in ('ref', 'deref'):
+        t = t[1]
+    if t[0] == 'call':
+        c = canon(t[1])
+        if c.endswith("RangeInclusive::new"):
+            return [t[2][0], t[2][1]]
+        if t[2]:
+            return _range_bounds(t[2][0])
+        return []
+    if t[0] == 'agg' and str(t[1]).endswith("ops::Range"):
+        return list(t[3])
+    return []
 
 
 def _iter_source(t):
@@ -316,8 +357,15 @@ def run(ctx, progs):
             for h, blocks, shape, detail, calls in loops_of(prog, b):
                 n_loops += 1
                 inst = f"{fnkey}|loop"
-                if shape:
+                if shape and shape != "param_bounded_range":
                     ctx.ob("A4.loop", inst + f"|{shape}", True, b.where(), detail)
+                    continue
+                if shape == "param_bounded_range":
+                    trow = None
+                    for r in T.LOOPS:
+                        if re.search(r[0], fnkey) and r[1] == "param_bounded_range":
+                            trow = r
+                    ctx.ob("A4.loop", inst + "|param_bounded_range", trow is not None, b.where(), (f"[tabled] {trow[2]}" if trow else detail))
                     continue
                 row = None
                 for r in T.LOOPS:
